@@ -18,7 +18,7 @@ Items == <<
   [pairs |-> << <<<<97, 46, 101, 120>>, <<47, 103, 101, 116>>>>, <<<<98, 46, 101, 120>>, <<47, 111, 116, 104, 101, 114>>>>, <<<<99, 46, 101, 120>>, <<47, 103, 101, 116>>>> >>],
   [submit |-> <<47, 115, 117, 98, 109, 105, 116, 46, 112, 104, 112>>, verb_get |-> <<71, 69, 84>>, verb_post |-> <<80, 79, 83, 84>>],
   [get_prog |-> <<S("_HEADER", <<65, 99, 99, 101, 112, 116, 58, 32, 42, 47, 42>>), S("_PARAMETER", <<118, 61, 49>>), S("BUILD", 0), S("BASE64URL", <<>>), S("PREPEND", Tricky), S("HEADER", <<67, 111, 111, 107, 105, 101>>)>>],
-  [post_prog |-> <<S("_HOSTHEADER", <<72, 111, 115, 116, 58, 32, 104, 46, 101, 120>>), S("BUILD", 0), S("NETBIOS", <<>>), S("PARAMETER", <<105, 100>>), S("BUILD", 1), S("MASK", <<>>), S("BASE64", <<>>), S("APPEND", <<0, 255, 39>>), S("PRINT", <<>>)>>],
+  [post_prog |-> <<S("_HEADER", <<88, 45, 84, 114, 97, 99, 101, 58, 32, 115, 116, 97, 103, 101, 58, 32, 50, 44, 32, 104, 111, 112, 58, 32, 52>>), S("_HOSTHEADER", <<72, 111, 115, 116, 58, 32, 104, 46, 101, 120>>), S("BUILD", 0), S("NETBIOS", <<>>), S("PARAMETER", <<105, 100>>), S("BUILD", 1), S("MASK", <<>>), S("BASE64", <<>>), S("APPEND", <<0, 255, 39>>), S("PRINT", <<>>)>>],
   [recover |-> <<S("PRINT", 0), S("BASE64", 0), S("PREPEND", 4), S("APPEND", 2), S("MASK", 0)>>],
   [spawnto_x86 |-> <<37, 119, 37, 92, 115, 121, 115, 92, 114, 46, 101, 120, 101>>, spawnto_x64 |-> <<37, 119, 37, 92, 110, 92, 116, 46, 101, 120, 101>>],
   [perms_i |-> 64, perms |-> 32, minalloc |-> 4096, allocator |-> 1],
